@@ -276,7 +276,40 @@ macro_rules! aops {
             #[allow(unused_mut)]
             fn snapshot(w: &mut VW, path: u8) -> Vec<Row> {
                 let mut out: Vec<Row> = Vec::new();
-                match path % 15 {
+                match path % 16 {
+                    // the documented spellings nothing else uses: the world given as an EXPRESSION, bare `_`
+                    // parameter names, a closure without parameters (matches every archetype), and the
+                    // `World::archetype::<A>()` accessor with `ArchetypeHas<C>` as a generic bound
+                    15 => {
+                        let mut toks: Vec<Tok> = Vec::new();
+                        ecs_iter!((&mut *w), |e: &Entity<$A>, $(_: &$T),*| { toks.push(tok(*e)); });
+                        let mut n0 = 0usize;
+                        ecs_iter_borrow!((&*w), || { n0 += 1; });
+                        let mut n1 = 0usize;
+                        ecs_iter!((&mut *w), || { n1 += 1; });
+                        let total = w.ap.len() + w.aq.len() + w.ar.len() + w.aw.len();
+                        if n0 != total || n1 != total {
+                            reg::with(|r| r.anomalies.push(format!("zero_param_count:{}:{}:{}", n0, n1, total)));
+                        }
+                        fn col<A: Archetype + ArchetypeHas<C>, C>(a: &mut A) -> &[C] { a.get_slice::<C>() }
+                        fn bcol<A: Archetype + ArchetypeHas<C>, C>(a: &A) -> std::cell::Ref<'_, [C]> { a.borrow_slice::<C>() }
+                        let ents: Vec<Entity<$A>> = w.archetype::<$A>().entities().to_vec();
+                        for (i, e) in ents.iter().enumerate() {
+                            let row = vec![$(rd(&col::<$A, $T>(w.archetype_mut::<$A>())[i])),*];
+                            let brow = vec![$(rd(&bcol::<$A, $T>(w.archetype::<$A>())[i])),*];
+                            if row != brow {
+                                reg::with(|r| r.anomalies.push(format!("underscore_iter:{}:rows", stringify!($A))));
+                            }
+                            out.push((tok(*e), row));
+                        }
+                        let mut a = toks.clone();
+                        let mut b: Vec<Tok> = ents.iter().map(|e| tok(*e)).collect();
+                        a.sort();
+                        b.sort();
+                        if a != b {
+                            reg::with(|r| r.anomalies.push(format!("underscore_iter:{}:{}:{}", stringify!($A), a.len(), b.len())));
+                        }
+                    }
                     // closures that leave by an early `return;` ("skip this entity"): the first pass skips
                     // every second visit, the second pass (runtime-borrowing macro) the others
                     14 => {
